@@ -419,3 +419,24 @@ fn replay(_sub: &str, case: &Json) -> Option<CaseResult> {
     let sched: Sched = serde_json::from_value(case.get("sched")?.clone()).ok()?;
     Some(check_case(&mv, pi, &sched))
 }
+
+/// libFuzzer entry: a generated (value, printer options, sink schedule).
+pub fn fuzz(f: &mut FuzzIn) -> Option<CaseResult> {
+    if f.mode % 2 == 0 && f.raw.len() >= 6 {
+        let pi = u16::from_le_bytes([f.raw[0], f.raw[1]]) as usize % N_POPT;
+        let k = f.raw[3] as usize;
+        let sched = match f.raw[2] % 6 {
+            0 => Sched::Max(1 + k % 9),
+            1 => Sched::Cycle(vec![1 + k % 7, k / 8 % 5, 1 + k / 64]),
+            2 => Sched::Cycle(vec![1 + k % 5, 2 + k / 16 % 9]),
+            3 => Sched::Interrupt(2 + k % 3, 1 + k / 4 % 3),
+            4 => Sched::Zero,
+            _ => Sched::ErrorEverywhere,
+        };
+        let cfg = ValueCfg { ident: IdentRules::default(), bytes: true, keywords: true, depth: 3, nodes: 24, branch: 4, str_max: 8 };
+        let v = f.mv(4, cfg, 3);
+        return Some(check_case(&v, pi, &sched));
+    }
+    let (v, pi, s) = f.draw(&g_case())?;
+    Some(check_case(&v, pi, &s))
+}
